@@ -336,8 +336,10 @@ class RequestWideSearchContext(object):
                 returned.
         :return: arr or a copy thereof.
         """
-        if self.group_policy != 'none':
-            return arr
+        # NOTE: this is not limited to group_policy=none: the unsuffixed group
+        # is never isolated from the suffixed ones, so with any group policy
+        # (or none at all, when there is a single suffixed group) two groups
+        # can land on the same provider and resource class.
         if arr.resource_class in self.multi_group_rcs:
             return copy.copy(arr)
         return arr
